@@ -8,8 +8,9 @@ IdentityFile lists, tokens) are rendered to text with random formatting for the 
 hostnames and get_hostnames() are compared (machine-dependent values and sha1 patched to fixed/toy values).
 A separate stream validates the glob model against fnmatch.
 Oracle (model-independent): the statement's first-obtained rule evaluated by `reference()` below on the structured
-config (real sha1, Python's fnmatch as the trusted matcher), for configs whose blocks are Host blocks or
-pass-invariant Match blocks (all / originalhost / localuser / canonical); get_hostnames for every config.
+config (real sha1, Python's fnmatch as the trusted matcher): `reference()` for configs whose blocks are Host blocks or
+pass-invariant Match blocks, `reference_dynamic()` (blocks visited in file order, Match host / user tested against the
+values obtained so far, final = second pass) for the others; get_hostnames for every config.
 """
 import copy
 import fnmatch as _fnmatch
@@ -133,6 +134,41 @@ def gen_config(rng, static_only=False):
             lines.append(("M", toks))
         lines += kv_lines(rng.choice([0, 1, 2, 2, 3, 4, 6]))
     return lines, static
+
+
+def gen_hostname_then_match(rng):
+    """an earlier block sets HostName; a later `Match [!]host` / `originalhost` / `user` block whose verdict differs
+    between the looked-up alias and the value obtained so far; a still later block sets the same keys"""
+    alias = rng.choice(["a", "web1", "db", "gw"])
+    hn = rng.choice(["real.example.org", "gw.internal", "10.0.0.7", alias + ".corp.example.com"])
+    pat_hn = rng.choice([hn, "*." + hn.split(".", 1)[1] if "." in hn else hn, hn[:3] + "*"])
+    pat_alias = rng.choice([alias, alias[0] + "*", "?" * len(alias)])
+    lines = []
+    if rng.random() < 0.3:
+        lines += [("K", "ServerAliveInterval", "30")]
+    lines += [("H", [rng.choice([alias, alias + " other", "*"]).split()[0]]), ("K", "HostName", hn)]
+    if rng.random() < 0.5:
+        lines += [("K", "User", rng.choice(USERS))]
+    keyset = [("User", USERS), ("Port", ["2200", "2222"]), ("ControlPath", ["/tmp/cp-%C", "~/.ssh/cm-%r@%h:%p"]),
+              ("IdentityFile", ["k1", "k2", "~/.ssh/id_%h"]), ("ProxyCommand", ["ssh -W %h:%p gw", "none", "nc %h %p"]),
+              ("Compression", ["yes", "no"])]
+    for _ in range(rng.choice([1, 1, 2])):
+        kind = rng.choice(["host", "host", "!host", "!host", "originalhost", "user", "host+final"])
+        pat = rng.choice([pat_hn, pat_hn, pat_alias, pat_hn + "," + pat_alias])
+        if kind == "user":
+            toks = [rng.choice(["user", "!user"]), rng.choice(USERS)]
+        elif kind == "host+final":
+            toks = ["final", "host", pat]
+        else:
+            toks = [kind, pat]
+        lines.append(("M", toks))
+        for k, vals in rng.sample(keyset, rng.randrange(1, 4)):
+            lines.append(("K", k, rng.choice(vals)))
+    for sel in rng.sample([("H", ["*"]), ("H", [alias]), ("M", ["all"]), ("M", ["originalhost", alias])], rng.choice([1, 2])):
+        lines.append(sel)
+        for k, vals in rng.sample(keyset, rng.randrange(2, 5)):
+            lines.append(("K", k, rng.choice(vals)))
+    return lines
 
 
 def gen_bad_match(rng):
@@ -259,6 +295,66 @@ def reference(lines, name):
             else:
                 opts.setdefault(key, value)
     opts.setdefault("hostname", name)
+    return ref_finish(opts, name)
+
+
+def ref_match_applies_dyn(tokens, name, opts, final):
+    """Match criteria evaluated where the block stands: `host` against the HostName obtained so far (else the
+    looked-up name), `user` against the User obtained so far (else the local user), `final` = second pass"""
+    i = 0
+    while i < len(tokens):
+        t = tokens[i]
+        neg = t.startswith("!")
+        t = t[1:] if neg else t
+        if t == "all":
+            return True
+        if t in ("canonical", "final"):
+            ok = final if t == "final" else False
+            i += 1
+        else:
+            param = tokens[i + 1]
+            target = {"originalhost": name, "host": opts.get("hostname") or name,
+                      "user": opts.get("user") or LU, "localuser": LU}[t]
+            ok = ref_host_applies(param.split(","), target)
+            i += 2
+        if ok == neg:
+            return False
+    return True
+
+
+def reference_dynamic(lines, name):
+    """first-obtained rule for configs with Match host / user / final: blocks are visited in file order, twice (the
+    second time as the `final` pass, after HostName got its default); a value once obtained is never replaced"""
+    blocks = [(("H", ["*"]), {})]
+    for ln in lines:
+        if ln[0] in "HM":
+            blocks.append((ln, {}))
+            continue
+        cfg = blocks[-1][1]
+        key, value = ln[1].lower(), ln[2]
+        if key == "proxycommand" and value.lower() == "none":
+            cfg.setdefault(key, None)
+        elif key in LIST_KEYS:
+            cfg.setdefault(key, []).append(ref_unquote(value))
+        else:
+            cfg.setdefault(key, ref_unquote(value))
+    opts = {}
+    for final in (False, True):
+        for sel, cfg in blocks:
+            applies = ref_host_applies(sel[1], name) if sel[0] == "H" else ref_match_applies_dyn(sel[1], name, opts, final)
+            if not applies:
+                continue
+            for key, value in cfg.items():
+                if key == "identityfile":
+                    lst = opts.setdefault(key, [])
+                    lst.extend(v for v in value if v not in lst and not lst.count(v))
+                elif key not in opts:
+                    opts[key] = list(value) if isinstance(value, list) else value
+        opts.setdefault("hostname", name)
+    return ref_finish(opts, name)
+
+
+def ref_finish(opts, name):
     # expansion: HostName first (its %h is the looked-up name), everything else sees the expanded HostName
     hostname = ref_expand("hostname", opts["hostname"], {"%h": name})
     port = opts.get("port")
@@ -378,11 +474,13 @@ def _run(ctx, rng, pc, SSHConfig, ConfigParseError, CouldNotCanonicalize):
         if i % 25 == 7:      # malformed Match lines
             pos = rng.randrange(0, len(lines) + 1)
             lines = lines[:pos] + [("M", gen_bad_match(rng))] + lines[pos:]
-            static = False
+            static = None        # unknown criteria / parse errors: correspondence only
         if i == 0:           # the two probes of DESIGN.md section 7 in one config
             lines = [("H", ["a"]), ("K", "ProxyCommand", "ssh -W %h:%p gw"), ("K", "ProxyCommand", "none"),
                      ("M", ["all"]), ("K", "User", "u")]
             static = True
+        if i % 5 == 1:
+            lines, static = gen_hostname_then_match(rng), False
         raising_host = None
         if i % 6 == 3:       # a block whose options make lookup() raise, for one host (or for every host)
             raising_host = rng.choice(HOSTS)
@@ -396,6 +494,8 @@ def _run(ctx, rng, pc, SSHConfig, ConfigParseError, CouldNotCanonicalize):
             lines = lines[:pos] + blk + lines[pos:]
         text = render(rng, lines)
         names = [rng.choice(HOSTS) for _ in range(2)] + ["".join(rng.choice("abw1.x-") for _ in range(rng.randrange(1, 6)))]
+        if i % 5 == 1 and raising_host is None:
+            names = [lines[[ln[0] for ln in lines].index("H")][1][0].replace("*", "a"), "web1", "db"]
         if raising_host is not None:   # ordinary lookups before and after the raising one, on the same object
             names = [names[0], raising_host, names[0], names[1], raising_host, names[2], names[1]]
         if i == 0:
@@ -490,6 +590,15 @@ def _run(ctx, rng, pc, SSHConfig, ConfigParseError, CouldNotCanonicalize):
                         ctx.disagree("lookup", case, rep[:300], "raise " + type(real).__name__)
                 continue
             applies = 0
+            if static is False:
+                want = reference_dynamic(lines, n)
+                for k in sorted(set(want) | set(real)):
+                    if k not in real or k not in want or real[k] != want[k]:
+                        ctx.fail("match-host-user-final:lookup-differs-from-first-obtained:" + k, case,
+                                 "key %r: lookup gives %r; visiting the blocks in file order (Match host/user tested against "
+                                 "the values obtained so far) gives %r" % (k, real.get(k, "<absent>"), want.get(k, "<absent>")))
+                        break
+                ctx.dist("oracle:first-obtained-checked (option-dependent Match)")
             if static:
                 want = reference(lines, n)
                 blocks = [("H", ["*"])] + [ln for ln in lines if ln[0] in "HM"]
@@ -545,7 +654,11 @@ META = {
              "literal characters, * and ? (no [] classes) and validated against fnmatch.fnmatch every run; "
              "pv/lib_config.py (generated token table and replacement order; a token bound to another source expression is "
              "reported as a broken tie); getpass/socket/os.path/sha1 are parameters (patched; toy hash for the "
-             "correspondence run, real sha1 for the oracle run). ASCII keys/values only. The oracle's reference follows "
+             "correspondence run, real sha1 for the oracle run). ASCII keys/values only. The oracle has two independent "
+             "references: the static first-obtained rule, and for configs with Match host/user/final a two-pass visit in file "
+             "order in which Match host/user are tested against the values obtained so far (generator includes HostName "
+             "set by an earlier block, then Match [!]host blocks whose verdict differs between alias and HostName, then "
+             "later blocks setting the same keys). The oracle's reference follows "
              "OpenSSH for %u (local user) and %r (remote user) like the code; config.rst describes %u differently."),
     "technique": "Lean 4 proof (ordered-dict fold invariants, two-pass lookup) + differential correspondence on rendered configs + independent first-obtained reference oracle",
 }
